@@ -59,6 +59,7 @@ package parsepasses
 //@   at call (*templateChecker).checkKey#0 after set ok = res
 //@   at call panic#0 assert[only-unbound-keys-are-rejected;C07] !ok
 //@   ensures[returns-only-for-bound-keys;C07] ok
+//@   ensures[keeps-loop-variables;C07] sameslice(tc.forVars, old(tc.forVars))
 //@   ensures[records-the-use;C07] len(tc.usedKeys) == old(len(tc.usedKeys)) + 1 && tc.usedKeys[len(tc.usedKeys)-1] == key
 
 //@ func (*templateChecker).checkCall
@@ -79,6 +80,7 @@ package parsepasses
 //@   at call parsepasses.contains#2 after set allReq = allReq && res
 //@   at call parsepasses.contains#2 after set nReq = nReq + 1
 //@   ensures[callee-exists;C07] found
+//@   ensures[keeps-loop-variables;C07] sameslice(tc.forVars, old(tc.forVars))
 //@   ensures[only-declared-params-passed;C07] allDecl && nDecl == len(callerParamNames)
 //@   ensures[required-params-passed-unless-data;C07] node.Data == nil ==> allReq && nReq == len(requiredCalleeParamNames)
 //@   loop 3
@@ -101,3 +103,18 @@ package parsepasses
 //@   at call panic#0 assert[only-unused-params-are-rejected;C07] !allUsed
 //@   loop 1
 //@     invariant[params-checked-so-far;C07] nUsed == rangeindex + 1 && allUsed == (len(unusedParamNames) == 0)
+
+// the list of loop variables follows the block structure: a loop variable
+// leaves scope with its loop, and visiting any node leaves the list as it was.
+//@ func (*templateChecker).recurse
+//@   props C07
+//@   nosafety
+//@   noterm
+//@   modifies *
+//@   ensures[loop-variables-restored;C07] len(tc.forVars) == old(len(tc.forVars))
+//@ func (*templateChecker).checkTemplate
+//@   props C07
+//@   nosafety
+//@   noterm
+//@   modifies *
+//@   ensures[loop-variable-leaves-scope-with-its-loop;C07] len(tc.forVars) == old(len(tc.forVars))
